@@ -3,6 +3,7 @@ import Rtsp.Model.Headers.KeyVal
 Model of /repo/pkg/headers/rtp_info.go.
 -/
 namespace Rtsp.Hdr
+open Rtsp.Facts
 
 structure RtpInfoEntry where
   url : Str := []
@@ -16,11 +17,11 @@ def RtpInfoEntry.steps (st : RtpInfoEntry × Bool) : List (Str × Str) → Res (
   | (k, v) :: rest =>
     if k = cs!"url" then RtpInfoEntry.steps ({ st.1 with url := v }, true) rest
     else if k = cs!"seq" then
-      match parseUint 16 v with
+      match parseUint Hdr.seqBits v with
       | some n => RtpInfoEntry.steps ({ st.1 with seq := some n }, st.2) rest
       | none => .err .number
     else if k = cs!"rtptime" then
-      match parseUint 32 v with
+      match parseUint Hdr.rtptimeBits v with
       | some n => RtpInfoEntry.steps ({ st.1 with ts := some n }, st.2) rest
       | none => .err .number
     else RtpInfoEntry.steps st rest
@@ -56,10 +57,7 @@ def RtpInfo.unmarshalWith (kvp : KvParser) : List Str → Res (List RtpInfoEntry
 def RtpInfo.unmarshal : List Str → Res (List RtpInfoEntry) := RtpInfo.unmarshalWith keyValParse
 
 def RtpInfoEntry.marshal (e : RtpInfoEntry) : Str :=
-  joinWith ';' ([cs!"url=" ++ e.url] ++ optField' cs!"seq=" (e.seq.map dec) ++ optField' cs!"rtptime=" (e.ts.map dec))
-where optField' (name : Str) : Option Str → List Str
-  | some v => [name ++ v]
-  | none => []
+  joinWith ';' ([cs!"url=" ++ e.url] ++ optField cs!"seq=" (e.seq.map dec) ++ optField cs!"rtptime=" (e.ts.map dec))
 
 def RtpInfo.marshal (h : List RtpInfoEntry) : Str := joinWith ',' (h.map RtpInfoEntry.marshal)
 
